@@ -30,7 +30,7 @@ TEXT = {
         "technique": "Lean 4 round-trip theorems over generated opcode table + differential execution",
     },
     "C14": {
-        "level": "decision logic of confirm stated outright and proved for all stake sets and proofs (C14_decision): confirms iff every signature is valid and 3·present > 2·total; corollaries for invalid signatures, minorities, empty proofs, unanimous proofs (tally lemma over duplicate-free keys) and monotonicity. Compared with SealedState::confirm over stake distributions × signer subsets × signature corruptions; a Python oracle recomputes the tallies from the dumped stake set.",
+        "level": "decision logic of confirm stated outright and proved for all stake sets and proofs (C14_decision): confirms iff every signature is valid and 3·present > 2·total; corollaries for invalid signatures, minorities, empty proofs, unanimous proofs (tally lemma over duplicate-free keys) and monotonicity. Compared with SealedState::confirm over stake distributions × signer subsets × signature corruptions; a Python oracle recomputes the tallies from the dumped stake set. After the fix: of the vote-sum overflow (F21) the tallies saturate: C14_decision_total (the two-thirds rule whenever the total is below u128::MAX), C14_saturated_total (a saturated total confirms nothing), C14_no_vote_overflow_crash.",
         "design_ref": "DESIGN.md §4 C14",
         "note": NOTE_COMMON + " The inverted comparison (F15) was repaired by a fix: commit; C14_old_inverted records what was wrong.",
         "technique": "Lean 4 decision-logic theorems + differential execution + tally oracle",
@@ -42,7 +42,7 @@ TEXT = {
         "technique": "Lean 4 arithmetic theorems + exhaustive-delta differential execution",
     },
     "C01": {
-        "level": "C01_apply: for every state and every accepted batch — any kinds, any order, members spending each other — the supply of every denomination (coins + pool reserves + fee pool and tips for MEL) grows by at most the declared issuance (faucet outputs and fee, a transaction's own new token, ERG outputs of an ERG mint); C01_apply_closed; C01_tx_balanced; C01_next. Sealing: C01_settlement (swaps, deposits and withdrawals against any pools in one block create nothing, outside the legacy deposit window), C01_builtins, C01_pegging_local, C01_subsidy (SYM grows by at most 2^20 >> halvings, MEL and ERG do not grow), C01_reward (exact), C01_legacy_deposit_keeps_coin (known deviation). Per-denomination totals of every generated batch/seal/next are compared with the model and checked against the declared issuance by a Python oracle on the real dumps.",
+        "level": "C01_apply: for every state and every accepted batch — any kinds, any order, members spending each other — the supply of every denomination (coins + pool reserves + fee pool and tips for MEL) grows by at most the declared issuance (faucet outputs and fee, a transaction's own new token, ERG outputs of an ERG mint); C01_apply_closed; C01_tx_balanced; C01_next. Sealing: C01_settlement (swaps, deposits and withdrawals against any pools in one block create nothing, outside the legacy deposit window), C01_builtins, C01_pegging_local, C01_subsidy (SYM grows by at most 2^20 >> halvings, MEL and ERG do not grow), C01_reward (exact), C01_legacy_deposit_keeps_coin (known deviation). Per-denomination totals of every generated batch/seal/next are compared with the model and checked against the declared issuance by a Python oracle on the real dumps. Whole block (Props/C01Whole): C01_pegging_bounded (the peg adjustment touches only the MEL/SYM pool and creates at most u128::MAX/throttler of MEL or SYM), C01_seal_whole (supply after sealState ≤ supply before + builtin creation + peg + TIP-909 subsidy for every non-liquidity-token denomination), C01_block_whole / C01_block_closed (batch + seal + next block), C01_action_neutral.",
         "design_ref": "DESIGN.md §4 C01",
         "note": NOTE_COMMON + " Open known findings: legacy deposit rule (inflation below height 978392 on Mainnet/Testnet), F11 (grandfathered faucet replay).",
         "technique": "Lean 4 conservation theorems (batch + every sealing phase) + differential execution + supply oracle",
@@ -54,7 +54,7 @@ TEXT = {
         "technique": "Lean 4 refinement theorem (coin map = declarative spec) + differential execution + reference-map oracle",
     },
     "C03": {
-        "level": "C03_perm / C03_perm_reject: for every state and every batch of hash-distinct transactions, any permutation of an accepted batch is accepted with the same observable state (every coin, count, stake, the transaction list, fee pool, tips, speed) and a rejected batch is rejected in every order; C03_forall_perm, C03_max_perm, C03_satsum_perm, C03_txset_perm: the reductions used by the parallel code are order-independent folds; a machine-checked witness shows which side condition is really needed (a batch spending the pseudo-coin of a grandfathered faucet is order-dependent). The real code is run on every permutation of every small generated batch, one transaction at a time in dependency order, under several rayon pool sizes with byte-identical outputs required, and through apply_block with arbitrarily ordered transaction sets.",
+        "level": "C03_perm / C03_perm_reject: for every state and every batch of hash-distinct transactions, any permutation of an accepted batch is accepted with the same observable state (every coin, count, stake, the transaction list, fee pool, tips, speed) and a rejected batch is rejected in every order; C03_forall_perm, C03_max_perm, C03_satsum_perm, C03_txset_perm: the reductions used by the parallel code are order-independent folds; a machine-checked witness shows which side condition is really needed (a batch spending the pseudo-coin of a grandfathered faucet is order-dependent). The real code is run on every permutation of every small generated batch, one transaction at a time in dependency order, under several rayon pool sizes with byte-identical outputs required, and through apply_block with arbitrarily ordered transaction sets. Props/C03Seq: C03_batch_split, C03_seq_of_batch, C03_batch_of_seq, C03_seq_orders — an accepted batch equals one-at-a-time application in every dependency-respecting order and conversely (for states that have their previous header; the converse needs GfFresh, with machine-checked counterexamples).",
         "design_ref": "DESIGN.md §4 C03",
         "note": NOTE_COMMON + " Thread scheduling and hash-set iteration order are exercised, not modelled (partial). Before the fix: commit 076ec87 the theorem was false (F1).",
         "technique": "Lean 4 Perm-invariance theorem + permutation/sequential/rayon differential execution",
@@ -72,13 +72,13 @@ TEXT = {
         "technique": "Lean 4 arithmetic/fold theorems + differential execution + fee-equation oracle",
     },
     "C13": {
-        "level": "C13_register_iff (a stake is registered exactly under the stated conditions), C13_malformed, C13_locked / C13_locked_error (no output of a registered or being-registered stake can be spent; CoinLocked), C13_unlock (dropped exactly at the first block of the epoch after the end field), C13_seal_keeps_stakes, C13_votes / C13_total_votes / C13_total_is_sum_of_keys, C13_legacy_window (known deviation K2). The stake set after every batch and next_unsealed is compared with the model and recomputed by a Python oracle from the decoded stake documents; states are fabricated at epoch boundaries.",
+        "level": "C13_register_iff (a stake is registered exactly under the stated conditions), C13_malformed, C13_locked / C13_locked_error (no output of a registered or being-registered stake can be spent; CoinLocked), C13_unlock (dropped exactly at the first block of the epoch after the end field), C13_seal_keeps_stakes, C13_votes / C13_total_votes / C13_total_is_sum_of_keys, C13_legacy_window (known deviation K2). The stake set after every batch and next_unsealed is compared with the model and recomputed by a Python oracle from the decoded stake documents; states are fabricated at epoch boundaries. Over histories (Props/C13Life): along any run of batches and blocks a registered stake stays registered and its outputs unspendable while the chain's epoch is at most its end field, is gone once a block of a later epoch has been opened, and counts for its key in between (C13_life_registered, C13_life_locked, C13_life_unlocked, C13_life_votes). Voting power is also checked through the confirm stream and oracle.",
         "design_ref": "DESIGN.md §4 C13",
         "note": NOTE_COMMON + " The legacy windows (Mainnet/Testnet below 500000 / 900000) are explicit hypotheses.",
         "technique": "Lean 4 theorems on batch and epoch transitions + differential execution + registration oracle",
     },
     "C19": {
-        "level": "C19_mainnet (no faucet on mainnet but the grandfathered hash), C19_marker_inserted, C19_duplicate_rejected / C19_duplicate_error (DuplicateTx), C19_same_batch, C19_marker_unspendable (a marker survives every accepted batch: spending it needs a covenant hashing to the zero address), C19_grandfathered_no_marker (known finding F11). Faucet accept/reject and markers of generated histories (replays in the same batch, later blocks, after restore) are compared with the model and checked by a Python oracle.",
+        "level": "C19_mainnet (no faucet on mainnet but the grandfathered hash), C19_marker_inserted, C19_duplicate_rejected / C19_duplicate_error (DuplicateTx), C19_same_batch, C19_marker_unspendable (a marker survives every accepted batch: spending it needs a covenant hashing to the zero address), C19_grandfathered_no_marker (known finding F11). Faucet accept/reject and markers of generated histories (replays in the same batch, later blocks, after restore) are compared with the model and checked by a Python oracle. Over histories (Props/C19Life): C19_marker_forever and C19_never_again — once a non-grandfathered faucet transaction has been accepted, no batch containing it is accepted in any later state of the chain, across batches, seals and block openings (DuplicateTx for the transaction alone).",
         "design_ref": "DESIGN.md §4 C19",
         "note": NOTE_COMMON + " F11 (grandfathered transaction replayable) is pinned by a passing test and recorded as a known finding.",
         "technique": "Lean 4 invariant theorems + differential execution + marker oracle",
@@ -108,7 +108,7 @@ TEXT = {
         "technique": "Lean 4 invariant + Nat-arithmetic theorems + differential execution + settlement oracle",
     },
     "C16": {
-        "level": "C16_builtins_created / C16_builtins_exist (after every successful seal each builtin pool exists), C16_default_has_reserves, C16_partial_withdraw_keeps_reserves, C16_deposit_keeps_reserves, C16_deposit_amounts_positive, C16_subsidy_keeps_reserves, C16_issue_backed (tokens handed out for a block's deposits into a pool never exceed the liquidity recorded for them), C16_withdraw_guard, C16_old_overissue (what was wrong before the fix, F10). Pools after every seal are compared with the model; a Python oracle checks on the real dumps that the builtin pools exist with reserves and that liquidity tokens held in coins never exceed pool.liqs.",
+        "level": "C16_builtins_created / C16_builtins_exist (after every successful seal each builtin pool exists), C16_default_has_reserves, C16_partial_withdraw_keeps_reserves, C16_deposit_keeps_reserves, C16_deposit_amounts_positive, C16_subsidy_keeps_reserves, C16_issue_backed (tokens handed out for a block's deposits into a pool never exceed the liquidity recorded for them), C16_withdraw_guard, C16_old_overissue (what was wrong before the fix, F10). Pools after every seal are compared with the model; a Python oracle checks on the real dumps that the builtin pools exist with reserves and that liquidity tokens held in coins never exceed pool.liqs. History level (Props/C16Hist): Backed (tokens of a pool in coins and in other pools' reserves ≤ the liquidity the pool records) is preserved by every batch that does not mint the token, by settlement, builtin creation, pegging and the whole sealState, for canonical pool keys outside the legacy deposit window (C16_backed_batch / _settle / _seal); C16_old_saturating_deposit and C16_saturating_deposit_skipped record the defect K-liq-saturation and its fix.",
         "design_ref": "DESIGN.md §4 C16",
         "note": NOTE_COMMON + " The history-level invariant is checked by the oracle, its per-step lemmas are proved. K-faucet-liq (an off-mainnet faucet can mint liquidity tokens) is an open known finding.",
         "technique": "Lean 4 per-step invariant lemmas + differential execution + backing oracle",
@@ -120,7 +120,7 @@ TEXT = {
         "technique": "Lean 4 soundness theorem of the mint validation + differential execution with real proofs",
     },
     "C20": {
-        "level": "coin-map level: the count invariant (entry = number of coins per covenant hash, no zero entries, unique keys) is preserved by insert_coin on a fresh key or with unchanged covenant hash, by remove_coin (which then never underflows), is determined by the coin content, and is established by the TIP-906 activation fold (C20_*). Every count entry of every state of apply/seal/chain histories (including Testnet histories crossing height 500) is compared with the model and recounted from the real coin tree by a Python oracle.",
+        "level": "coin-map level: the count invariant (entry = number of coins per covenant hash, no zero entries, unique keys) is preserved by insert_coin on a fresh key or with unchanged covenant hash, by remove_coin (which then never underflows), is determined by the coin content, and is established by the TIP-906 activation fold (C20_*). Every count entry of every state of apply/seal/chain histories (including Testnet histories crossing height 500) is compared with the model and recounted from the real coin tree by a Python oracle. State level (Props/Reach): reachable_inv — every state reachable from a genesis state by accepted batches and sealed blocks satisfies the structural invariant, in particular C20_reachable (the counts are exact and zero-free in every reachable state once TIP-906 is active, no count entry before), under the hash-freshness premises BatchFresh / RewardFresh / MarkerFresh (each shown necessary by a machine-checked counterexample).",
         "design_ref": "DESIGN.md §4 C20",
         "note": NOTE_COMMON + " The state-level lift (each call site meets the side condition) is checked by the correspondence and the recount oracle, not yet by a theorem.",
         "technique": "Lean 4 invariant theorems on the coin map + recount oracle on real trees",
